@@ -5,6 +5,8 @@
 -/
 import SimVerif.Drv.Kernel
 import SimVerif.Props.C02
+import SimVerif.Drv.Http
+import SimVerif.Drv.Pcap
 
 open SimVerif SimVerif.Drv
 
@@ -23,6 +25,14 @@ def main (args : List String) : IO UInt32 := do
     let scns := parseBatch (← readLines file)
     for s in scns do
       for l in kernelTrace asIs s do IO.println l
+    return 0
+  | ["http", file] =>
+    for l in (← readLines file) do
+      if l ≠ "" then IO.println (SimVerif.Http.drvLine l)
+    return 0
+  | ["pcap", file] =>
+    let ls := (← readLines file).filter (· ≠ "")
+    for l in SimVerif.Pcap.drvLines ls do IO.println l
     return 0
   | _ =>
     IO.eprintln "usage: simcheck <mode> <file>"
